@@ -243,18 +243,21 @@ def stepHist (args pyout : Sexp) : String :=
           driverResult (.atom "value-error") (pyout == .atom "value-error") true false "log-zero-range"
         | .bins model =>
           let py : Option (List Rat) := do (← pyout.toList?).mapM rat?
-          let inP := edgeVals.isEmpty
+          -- hypothesis of `hist_perbin_partial` (linear) / no value on an interior edge (log)
+          let inP := if lg then edgeVals.isEmpty
+            else kept.isEmpty || lo == hi || histP lo hi (10 * ulp hi) n kept
           let (tot, perbin, adm) := match py with
             | some b => (b.length == n && b.sum == total, b == spec, logOk && admissible.contains b)
             | none => (false, false, false)
           let ok := if logOk then tot && perbin else py == some model
           let implok := !logOk || (model.sum == total && (!inP || model == spec))
           let shown := match py with
-            | some b => if !inP && adm then b else model
+            | some b => if !edgeVals.isEmpty && adm then b else model
             | none => model
           let br := (if lg then "log" else "lin") ++
             (if kept.isEmpty then "-nokept" else if !logOk then "-negrange"
-             else if !inP then "-edge" else if lo == hi then "-zerowidth" else "")
+             else if !edgeVals.isEmpty then "-edge" else if lo == hi then "-zerowidth"
+             else if !inP then "-nearedge" else "")
           Sexp.toString (Sexp.list [.atom "r", .list [.atom "impl", .list (shown.map ofRat)],
             .list [.atom "ok", ofBool ok], .list [.atom "implok", ofBool implok],
             .list [.atom "p", ofBool inP], .list [.atom "br", .atom br],
